@@ -7,7 +7,7 @@
 From Coq Require Import List NArith Bool Arith Lia.
 From Coq.Strings Require Import Byte.
 Import ListNotations.
-From OV Require Import Base.Bytes Base.Cases Base.Utf8 Gen.EdiConsts Model.Edi Proofs.Edi Proofs.EdiRT.
+From OV Require Import Base.Bytes Base.Cases Base.Utf8 Gen.EdiConsts Gen.EdiShape Model.Edi Proofs.Edi Proofs.EdiRT.
 
 (* a token: ends with seg, and that is its first unescaped occurrence of seg *)
 Definition is_token (seg esc t : bytes) : Prop :=
@@ -169,6 +169,7 @@ Lemma read_token_cover c p : c_elem c <> [] ->
   exists r, read_token c (p ++ c_seg c) = Ok r /\ tok_accounted c (p ++ c_seg c) r.
 Proof.
   intro He. unfold read_token.
+  change lf_rule_delim with [LF]. change lf_rule_suffix with [CR]. change edi_lf_rule_drop with 1.
   assert (length (p ++ c_seg c) <? length (c_seg c) = false) as ->.
   { apply Nat.ltb_ge. rewrite app_length. lia. }
   rewrite slice_ok by (rewrite ?app_length; lia). cbn [bind skipn]. rewrite Nat.sub_0_r.
@@ -210,7 +211,9 @@ Qed.
 
 Lemma strip_crlf_spec inp : strip_crlf inp = filter (fun b => negb (is_crlf b)) inp.
 Proof.
-  unfold strip_crlf, is_crlf. induction inp as [|b inp IH]; [reflexivity|]. cbn [filter].
+  (* the sequences extracted from NewNonValidatingReader are "\r" and "\n", in this order *)
+  change (strip_crlf inp) with (filter (fun b => negb (Byte.eqb b LF)) (filter (fun b => negb (Byte.eqb b CR)) inp)).
+  unfold is_crlf. induction inp as [|b inp IH]; [reflexivity|]. cbn [filter].
   destruct (Byte.eqb b CR) eqn:E1; cbn [negb orb filter].
   - exact IH.
   - destruct (Byte.eqb b LF); cbn [negb]; [exact IH|]. rewrite IH. reflexivity.
